@@ -133,6 +133,13 @@ impl FileSystem {
                     Component::Normal(name) => name,
                     Component::RootDir | Component::CurDir => continue,
                     Component::ParentDir => {
+                        // `..` can be resolved in a directory only
+                        if !matches!(
+                            nodes.last().unwrap().borrow().body,
+                            FileBody::Directory { .. }
+                        ) {
+                            return Err(Errno::ENOTDIR);
+                        }
                         if nodes.len() > 1 {
                             nodes.pop();
                         }
@@ -156,7 +163,10 @@ impl FileSystem {
             }
 
             let node = nodes.pop().unwrap();
-            if path.as_unix_str().as_bytes().ends_with(b"/")
+            // A trailing `/` or `/.` requires a directory. (`Path::components`
+            // silently drops a trailing `.` component.)
+            let bytes = path.as_unix_str().as_bytes();
+            if (bytes.ends_with(b"/") || bytes.ends_with(b"/."))
                 && !matches!(&node.borrow().body, FileBody::Directory { .. })
             {
                 return Err(Errno::ENOTDIR);
